@@ -57,6 +57,9 @@ struct ReuseSpec {
     x: Vec<u8>,
     y: Vec<u8>,
     maxlen: usize,
+    /// optional per-configuration sequence length (parallel to cfgs)
+    #[serde(default)]
+    maxlens: Vec<usize>,
 }
 
 /// call alphabet: 1 = generate(), 2 = generate_from_arbitrary(x), 3 = ...(y), 4 = reset()
@@ -97,7 +100,7 @@ pub fn reuse(args: &[String]) -> i32 {
                 out.push(json!({"t": "fresh", "cfg": ci, "P": cfg.p, "res": fresh, "seq": [], "calls": []}).to_string());
                 // every call sequence up to maxlen
                 let mut seqs: Vec<Vec<u8>> = vec![vec![]];
-                for _ in 0..spec.maxlen {
+                for _ in 0..spec.maxlens.get(ci).copied().unwrap_or(spec.maxlen) {
                     let mut next = Vec::new();
                     for s in &seqs {
                         for c in 1..=4u8 {
